@@ -13,6 +13,8 @@ From TS Require Import Model.MultiFile Spec.C10MultiSpec.
 From TS Require Model.Writer Proofs.C10Multi Proofs.C10MultiWitness.
 From TS Require Import Spec.C10GoGrammar.
 From TS Require Proofs.C10_GOGrammarTok Proofs.C10_GOGrammarSemi Proofs.C10_GOGrammarParse Proofs.C10_GOGrammar Proofs.C10_GOGrammarFile.
+From TS Require Import Spec.C10SwGrammar.
+From TS Require Proofs.C10_SWGrammarTok Proofs.C10_SWGrammarParse Proofs.C10_SWGrammarDecl Proofs.C10_SWGrammar Proofs.C10_SWGrammarFile.
 From TS Require Props.C10.
 
 Goal forall (cfg : c10_lexcfg) (t : str), c10_balanced cfg t = true ->
@@ -403,3 +405,62 @@ Goal Proofs.C10_KTGrammarTok.c10k_ident_ok (lit "app_core") = true /\
   c10_kt_recognise (lit "package com.p.lib" ++ nl ++ lit "import com.p.lib-crate.Item" ++ nl) = None.
 Proof. exact Props.C10.C10_grammar_kotlin_multi_witness. Qed.
 Print Assumptions Props.C10.C10_grammar_kotlin_multi_witness.
+Goal forall (a : str) (ta : list c10_wtok) (b : str) (tb : list c10_wtok),
+    c10_sw_tokens (S (List.length a)) a = Some ta -> c10_sw_tokens (S (List.length b)) b = Some tb ->
+    Proofs.C10_SWGrammarTok.glue a b = true -> Proofs.C10_SWGrammarTok.lcok a b = true ->
+    c10_sw_tokens (S (List.length (a ++ b))) (a ++ b) = Some (ta ++ tb).
+Proof. exact Props.C10.C10_sw_tokens_frame. Qed.
+Print Assumptions Props.C10.C10_sw_tokens_frame.
+Goal forall (t rest : list c10_wtok),
+    Proofs.C10_SWGrammarParse.WGr Proofs.C10_SWGrammarParse.STy t -> Proofs.C10_SWGrammarParse.fol rest ->
+    c10_sw_type (t ++ rest) = Some rest.
+Proof. exact Props.C10.C10_sw_type_grammar_complete. Qed.
+Print Assumptions Props.C10.C10_sw_type_grammar_complete.
+Goal forall (P : c10_sw_ctx -> Prop) (b : list c10_wtok), Proofs.C10_SWGrammarDecl.Body P b ->
+  forall ctx, P ctx -> forall rest f, (2 * List.length b + 2 <= f)%nat -> c10_sw_d f (WMembers ctx) (b ++ rest) = Some rest.
+Proof. exact Props.C10.C10_sw_body_grammar_complete. Qed.
+Print Assumptions Props.C10.C10_sw_body_grammar_complete.
+Goal forall (n : nat) (ts : list c10_wtok), Proofs.C10_SWGrammarDecl.FileToks n ts ->
+  forall f, (List.length ts < f)%nat -> c10_sw_decls f ts = Some n.
+Proof. exact Props.C10.C10_sw_file_grammar_complete. Qed.
+Print Assumptions Props.C10.C10_sw_file_grammar_complete.
+Goal forall (nv : bool) (version : str) (ds : list sw_decl),
+    c10_dotted_ok version = true -> Forall Proofs.C10_SWGrammar.c10_swg_decl_ok ds ->
+    c10_sw_recognise (Proofs.C10_SWGrammarFile.sw_header nv version ++ List.concat (map sw_render_decl ds)) = Some (S (List.length ds)).
+Proof. exact Props.C10.C10_swift_layout_grammar_partial. Qed.
+Print Assumptions Props.C10.C10_swift_layout_grammar_partial.
+Goal Proofs.C10_SWFile.c10_sw_cfg_ok Proofs.C10_SWGrammarFile.w_cfg = true /\ dom_C10 CSW Proofs.C10_SWGrammarFile.w_prog = true /\
+  known_C10 CSW [] Proofs.C10_SWGrammarFile.w_prog = [] /\
+  sw_generate uc_exec Proofs.C10_SWGrammarFile.w_cfg Proofs.C10_SWGrammarFile.w_prog = Ok Proofs.C10_SWGrammarFile.w_text /\
+  c10_sw_recognise Proofs.C10_SWGrammarFile.w_text = Some 7%nat /\
+  contains_sub (lit "public struct OPPerson<T: Codable & Equatable & Hashable & Sendable, U: Codable & Sendable>: Codable, Sendable, Equatable {") Proofs.C10_SWGrammarFile.w_text = true /\
+  contains_sub (lit "public let `class`: Unicode.Scalar") Proofs.C10_SWGrammarFile.w_text = true /\
+  contains_sub (lit "public let index: [String: OPBox<U, [Bool]>]") Proofs.C10_SWGrammarFile.w_text = true /\
+  contains_sub (lit "public typealias OPAl<T> = [T]?") Proofs.C10_SWGrammarFile.w_text = true /\
+  contains_sub (lit "case `default` = ""Default""") Proofs.C10_SWGrammarFile.w_text = true /\
+  contains_sub (lit "public indirect enum OPE<T: Codable & Sendable>: Codable, Sendable {") Proofs.C10_SWGrammarFile.w_text = true /\
+  contains_sub (lit "public init(from decoder: Decoder) throws {") Proofs.C10_SWGrammarFile.w_text = true /\
+  contains_sub (lit "public struct CodableVoid: Codable, Sendable, Equatable {}") Proofs.C10_SWGrammarFile.w_text = true /\
+  c10_sw_recognise (firstn (List.length Proofs.C10_SWGrammarFile.w_text - 3) Proofs.C10_SWGrammarFile.w_text) = None /\
+  c10_sw_recognise (Proofs.C10_TSGrammarFile.g_drop_first 123 Proofs.C10_SWGrammarFile.w_text) = None /\
+  c10_sw_recognise (Proofs.C10_TSGrammarFile.g_subst_first 61 58 Proofs.C10_SWGrammarFile.w_text) = None /\
+  c10_sw_recognise (Proofs.C10_TSGrammarFile.g_drop_first 96 Proofs.C10_SWGrammarFile.w_text) = None /\
+  c10_sw_recognise Proofs.C10_SWGrammarFile.w_two_members_two_lines = Some 1%nat /\
+  c10_sw_recognise Proofs.C10_SWGrammarFile.w_two_members_one_line = None /\
+  c10_sw_recognise Proofs.C10_SWGrammarFile.w_struct_without_name = None /\
+  c10_sw_recognise Proofs.C10_SWGrammarFile.w_empty_generics = None /\
+  c10_sw_recognise Proofs.C10_SWGrammarFile.w_member_without_type = None /\
+  c10_sw_recognise Proofs.C10_SWGrammarFile.w_raw_and_payload = None /\
+  c10_sw_recognise Proofs.C10_SWGrammarFile.w_label_class = Some 1%nat /\
+  c10_sw_recognise Proofs.C10_SWGrammarFile.w_label_let = None /\
+  c10_dotted_ok (sw_version Proofs.C10_SWGrammarFile.w_cfg) = true /\
+  Forall Proofs.C10_SWGrammar.c10_swg_decl_ok
+    [Proofs.C10_SWGrammarFile.w_alias_decl; Proofs.C10_SWGrammarFile.w_unit_decl; SWCodableVoid [lit "Codable"; lit "Equatable"]].
+Proof. exact Props.C10.C10_grammar_swift_witness. Qed.
+Print Assumptions Props.C10.C10_grammar_swift_witness.
+Goal exists text, dom_C10 CSW Proofs.C10_SWGrammarFile.w_label_prog = true /\
+    known_C10 CSW [] Proofs.C10_SWGrammarFile.w_label_prog = ["C10-swift-label"%string] /\
+    sw_generate uc_exec Proofs.C10_SWGrammarFile.w_cfg Proofs.C10_SWGrammarFile.w_label_prog = Ok text /\
+    contains_sub (lit "public init(let: String)") text = true /\ good_C10_lex CSW text = true /\ c10_sw_recognise text = None.
+Proof. exact Props.C10.C10_swift_label_rejected. Qed.
+Print Assumptions Props.C10.C10_swift_label_rejected.
